@@ -377,7 +377,7 @@ class Options:
                                  (section, factory_key))
             try:
                 factory = self.import_spec(factory_spec)
-            except (AttributeError, ImportError):
+            except (AttributeError, ImportError, TypeError, ValueError):
                 raise ValueError('%s cannot be resolved within [%s]' % (
                     factory_spec, section))
 
@@ -754,7 +754,7 @@ class ServerOptions(Options):
                                        'supervisor.dispatchers:default_handler')
             try:
                 result_handler = self.import_spec(result_handler)
-            except (AttributeError, ImportError):
+            except (AttributeError, ImportError, TypeError, ValueError):
                 raise ValueError('%s cannot be resolved within [%s]' % (
                     result_handler, section))
 
